@@ -162,6 +162,43 @@ def r2_record_lists(report, repo):
   report.expect_instances(rule, n_sites, 8, 'record list write sites')
 
 
+def r2b_no_write_after_add(report, repo):
+  rule = 'C10-R2'
+  TE = 'openhtf/core/test_executor.py'
+  for rel, q, adder, obj in (
+      (TE, 'TestExecutor._subtest_context', 'add_subtest_record', None),
+      (TS, 'TestState.running_phase_context', 'add_phase_record', None)):
+    f = repo.func(rel, q)
+    g = lib.cfg(f)
+    adds = lib.nodes_with_call(g, attr=adder)
+    report.expect_instances(rule, len(adds), 1, adder + ' calls in ' + q)
+    an, ac = adds[0]
+    arg = dotted(ac.args[0]) or ''
+    root = arg.split('.')[0]
+    later = g.reach([an], avoid_edge=lambda a, l, b: l == 'exc')
+    bad = []
+    for n in later:
+      if n.kind != 'stmt' or n.ast is None:
+        continue
+      for t in core.assigned_targets(n.ast):
+        d = dotted(t) or ''
+        if isinstance(t, (ast.Attribute, ast.Subscript)) and (
+            d.startswith(arg + '.') or d.startswith(root + '.')):
+          bad.append(n)
+      for sub in n.subnodes():
+        if isinstance(sub, ast.Call) and isinstance(sub.func, ast.Attribute) \
+            and sub.func.attr in ('finalize', 'finalize_phase') and (
+                dotted(sub.func.value) or '').startswith(root):
+          bad.append(n)
+    report.check(
+        not bad, rule, f.qualname, 'write-after-add', an.ast,
+        '%s: the record is complete when it is added (its rendering is cached '
+        'at that moment); nothing writes to it afterwards' % q,
+        '%s modifies the record after %s cached its rendering (%s): the '
+        'serialized record shows the earlier value' %
+        (q, adder, norm(bad[0].ast) if bad else ''))
+
+
 def r4_measurement_outcome(report, repo):
   rule = 'C10-R4'
   report.rule(rule, 'paired write: every assignment to Measurement.outcome is '
@@ -456,6 +493,7 @@ def r7_convert(report, repo):
 def run(report, repo):
   r1_schema(report, repo)
   r2_record_lists(report, repo)
+  r2b_no_write_after_add(report, repo)
   from sa.rules import c06  # pylint: disable=g-import-not-at-top
   c06.r3_stored_value(report, repo, only_cache=True)
   r4_measurement_outcome(report, repo)
